@@ -7,8 +7,14 @@ namespace QuantemModel.Vector
 
 /-! ### the invariant -/
 
-/-- rectangular: every row has exactly `ncols` entries -/
-@[reducible] def Arr.WF (a : Arr) : Prop := ∀ r ∈ a.rows, r.length = a.ncols
+/-- `x` is an integer value -/
+def IsIntQ (x : Rat) : Prop := ∃ k : Int, x = (k : Rat)
+
+/-- well-formed array: rectangular (every row has exactly `ncols` entries) and well-typed (an
+int64 array holds integers only) -/
+structure Arr.WF (a : Arr) : Prop where
+  rect : ∀ r ∈ a.rows, r.length = a.ncols
+  typed : a.isInt = true → ∀ r ∈ a.rows, ∀ x ∈ r, IsIntQ x
 
 /-- a populated cell refers to a live array with exactly `nf` columns -/
 @[reducible] def CellOK (heap : List Arr) (nf : Nat) (c : Option Ref) : Prop :=
@@ -101,16 +107,42 @@ theorem getVec_mem {s : State} {vid : Nat} {v : Vec} (h : s.getVec vid = .ok v) 
     exact List.mem_of_getElem? hv'
   · cases h
 
-/-! ### arrays stay rectangular -/
+/-! ### arrays stay rectangular and well-typed -/
 
 theorem fitRow_length (n : Nat) (r : List Rat) : (fitRow n r).length = n := by
   simp [fitRow]
 
-theorem Arr.lit_wf (n : Nat) (rows : List (List Rat)) : (Arr.lit n rows).WF := by
-  intro r hr
-  simp only [Arr.lit, List.mem_map] at hr
-  obtain ⟨x, _, rfl⟩ := hr
-  exact fitRow_length n x
+theorem isIntQ_truncQ (x : Rat) : IsIntQ (truncQ x) := ⟨_, rfl⟩
+
+theorem isIntQ_zero : IsIntQ 0 := ⟨0, by simp⟩
+
+theorem truncQ_intCast (k : Int) : truncQ (k : Rat) = (k : Rat) := by
+  simp [truncQ, Rat.num_intCast, Rat.den_intCast]
+
+/-- casting to the array's dtype changes nothing on values that already have it -/
+theorem castTo_of_isIntQ {t : Bool} {x : Rat} (h : t = true → IsIntQ x) : castTo t x = x := by
+  unfold castTo
+  split
+  · rename_i ht
+    obtain ⟨k, rfl⟩ := h ht
+    exact truncQ_intCast k
+  · rfl
+
+theorem castTo_typed (t : Bool) (x : Rat) : t = true → IsIntQ (castTo t x) := by
+  intro ht; subst ht; exact isIntQ_truncQ x
+
+theorem Arr.lit_wf (n : Nat) (rows : List (List Rat)) (t : Bool) : (Arr.lit n rows t).WF := by
+  constructor
+  · intro r hr
+    simp only [Arr.lit, List.mem_map] at hr
+    obtain ⟨x, _, rfl⟩ := hr
+    simp [fitRow_length, Arr.lit]
+  · intro ht r hr x hx
+    simp only [Arr.lit, List.mem_map] at hr
+    obtain ⟨r0, _, rfl⟩ := hr
+    simp only [List.mem_map] at hx
+    obtain ⟨y, _, rfl⟩ := hx
+    exact castTo_typed t y ht
 
 theorem setColRows_wf (j n : Nat) : ∀ (rows : List (List Rat)) (xs : List Rat),
     (∀ r ∈ rows, r.length = n) → ∀ r ∈ setColRows j rows xs, r.length = n := by
@@ -127,6 +159,29 @@ theorem setColRows_wf (j n : Nat) : ∀ (rows : List (List Rat)) (xs : List Rat)
       · simp [h r0 (List.mem_cons_self)]
       · exact ih xs (fun r hr => h r (List.mem_cons_of_mem _ hr)) r hr
 
+theorem mem_set_elem {α} {l : List α} {i : Nat} {a b : α} (h : b ∈ l.set i a) : b ∈ l ∨ b = a := by
+  rcases List.mem_or_eq_of_mem_set h with h | h
+  · exact Or.inl h
+  · exact Or.inr h
+
+theorem setColRows_all (j : Nat) (P : Rat → Prop) : ∀ (rows : List (List Rat)) (xs : List Rat),
+    (∀ r ∈ rows, ∀ x ∈ r, P x) → (∀ x ∈ xs, P x) → ∀ r ∈ setColRows j rows xs, ∀ x ∈ r, P x := by
+  intro rows
+  induction rows with
+  | nil => intro xs _ _ r hr; simp [setColRows] at hr
+  | cons r0 rs ih =>
+    intro xs h hx r hr
+    cases xs with
+    | nil => simp only [setColRows] at hr; exact h r hr
+    | cons x0 xs =>
+      simp only [setColRows, List.mem_cons] at hr
+      rcases hr with rfl | hr
+      · intro x hxm
+        rcases mem_set_elem hxm with h1 | h1
+        · exact h r0 List.mem_cons_self x h1
+        · subst h1; exact hx _ List.mem_cons_self
+      · exact ih xs (fun r hr => h r (List.mem_cons_of_mem _ hr)) (fun x hm => hx x (List.mem_cons_of_mem _ hm)) r hr
+
 theorem setColRows_length (j : Nat) : ∀ (rows : List (List Rat)) (xs : List Rat),
     (setColRows j rows xs).length = rows.length := by
   intro rows
@@ -138,26 +193,72 @@ theorem setColRows_length (j : Nat) : ∀ (rows : List (List Rat)) (xs : List Ra
     | nil => simp [setColRows]
     | cons x xs => simp [setColRows, ih]
 
-theorem Arr.setCol_wf {a : Arr} (h : a.WF) (j : Nat) (xs : List Rat) : (a.setCol j xs).WF :=
-  setColRows_wf j a.ncols a.rows xs h
+theorem Arr.setCol_wf {a : Arr} (h : a.WF) (j : Nat) (xs : List Rat) : (a.setCol j xs).WF := by
+  constructor
+  · exact setColRows_wf j a.ncols a.rows _ h.rect
+  · intro ht
+    have ht' : a.isInt = true := ht
+    refine setColRows_all j IsIntQ a.rows _ (h.typed ht') ?_
+    intro x hx
+    simp only [List.mem_map] at hx
+    obtain ⟨y, _, rfl⟩ := hx
+    exact castTo_typed _ y ht'
 
 theorem Arr.mapCol_wf {a : Arr} (h : a.WF) (j : Nat) (f : Rat → Rat) : (a.mapCol j f).WF := by
-  intro r hr
-  simp only [Arr.mapCol, List.mem_map] at hr
-  obtain ⟨x, hx, rfl⟩ := hr
-  simp [h x hx, Arr.mapCol]
+  constructor
+  · intro r hr
+    simp only [Arr.mapCol, List.mem_map] at hr
+    obtain ⟨x, hx, rfl⟩ := hr
+    simp [h.rect x hx, Arr.mapCol]
+  · intro ht r hr x hx
+    have ht' : a.isInt = true := ht
+    simp only [Arr.mapCol, List.mem_map] at hr
+    obtain ⟨r0, hr0, rfl⟩ := hr
+    rcases mem_set_elem hx with h1 | h1
+    · exact h.typed ht' r0 hr0 x h1
+    · subst h1; exact castTo_typed _ _ ht'
+
+theorem Arr.setRow_wf {a : Arr} (h : a.WF) (k : Nat) (row : List Rat) : (a.setRow k row).WF := by
+  constructor
+  · intro r hr
+    simp only [Arr.setRow] at hr
+    rcases mem_set_elem hr with h1 | h1
+    · exact h.rect r h1
+    · subst h1; simp [fitRow_length, Arr.setRow]
+  · intro ht r hr x hx
+    have ht' : a.isInt = true := ht
+    simp only [Arr.setRow] at hr
+    rcases mem_set_elem hr with h1 | h1
+    · exact h.typed ht' r h1 x hx
+    · subst h1
+      simp only [List.mem_map] at hx
+      obtain ⟨y, _, rfl⟩ := hx
+      exact castTo_typed _ y ht'
 
 theorem Arr.addCols_wf {a : Arr} (h : a.WF) (k : Nat) : (a.addCols k).WF := by
-  intro r hr
-  simp only [Arr.addCols, List.mem_map] at hr
-  obtain ⟨x, hx, rfl⟩ := hr
-  simp [h x hx, Arr.addCols]
+  constructor
+  · intro r hr
+    simp only [Arr.addCols, List.mem_map] at hr
+    obtain ⟨x, hx, rfl⟩ := hr
+    simp [h.rect x hx, Arr.addCols]
+  · intro ht; simp [Arr.addCols] at ht
 
-theorem Arr.keepCols_wf (a : Arr) (keep : List Nat) : (a.keepCols keep).WF := by
-  intro r hr
-  simp only [Arr.keepCols, List.mem_map] at hr
-  obtain ⟨x, _, rfl⟩ := hr
-  simp [Arr.keepCols]
+theorem Arr.keepCols_wf {a : Arr} (h : a.WF) (keep : List Nat) : (a.keepCols keep).WF := by
+  constructor
+  · intro r hr
+    simp only [Arr.keepCols, List.mem_map] at hr
+    obtain ⟨x, _, rfl⟩ := hr
+    simp [Arr.keepCols]
+  · intro ht r hr x hx
+    have ht' : a.isInt = true := ht
+    simp only [Arr.keepCols, List.mem_map] at hr
+    obtain ⟨r0, hr0, rfl⟩ := hr
+    simp only [List.mem_map] at hx
+    obtain ⟨i, _, rfl⟩ := hx
+    rw [List.getD_eq_getElem?_getD]
+    cases hi : r0[i]? with
+    | none => simpa using isIntQ_zero
+    | some y => simpa using h.typed ht' r0 hr0 y (List.mem_of_getElem? hi)
 
 theorem wf_append {h : List Arr} {a : Arr} (hh : ∀ x ∈ h, x.WF) (ha : a.WF) : ∀ x ∈ h ++ [a], x.WF := by
   intro x hx
@@ -251,9 +352,9 @@ theorem validateUnits_ok {units : Option (List String)} {nf : Nat} {us : List St
 
 /-! ### creation -/
 
-theorem inv_alloc {s : State} (hI : Inv s) (n : Nat) (rows : List (List Rat)) :
-    Inv { s with heap := s.heap ++ [Arr.lit n rows] } :=
-  hI.update (wf_append hI.wf (Arr.lit_wf n rows)) (HeapExt.append _ _) (Nat.le_refl _) (fun _ h => Or.inl h)
+theorem inv_alloc {s : State} (hI : Inv s) (n : Nat) (rows : List (List Rat)) (t : Bool) :
+    Inv { s with heap := s.heap ++ [Arr.lit n rows t] } :=
+  hI.update (wf_append hI.wf (Arr.lit_wf n rows t)) (HeapExt.append _ _) (Nat.le_refl _) (fun _ h => Or.inl h)
 
 theorem validateShape_pos {shape : List Int} {sh : List Nat} (h : validateShape shape = .ok sh) :
     ∀ d ∈ sh, 0 < d := by
@@ -275,8 +376,7 @@ theorem inv_fromShape {s : State} (hI : Inv s) (shape : List Int) (nf : Option I
   unfold opFromShape
   split
   · exact hI
-  · exact hI
-  · rename_i sh _ hsh
+  · rename_i sh hsh
     split
     · exact hI
     · rename_i fs hfs
@@ -303,13 +403,13 @@ theorem store_spec {heap heap1 : List Arr} {nf : Nat} {it : DItem} {r : Ref}
   · cases h
   · cases h
   · cases h
-  · rename_i n rows
+  · rename_i n rows t
     split at h
     · rename_i hc
       cases h
-      refine ⟨wf_append hwf (Arr.lit_wf n rows), HeapExt.append _ _, ?_⟩
+      refine ⟨wf_append hwf (Arr.lit_wf n rows t), HeapExt.append _ _, ?_⟩
       intro r' hr'; cases hr'
-      exact ⟨Arr.lit n rows, by simp, by simpa [Arr.lit] using hc⟩
+      exact ⟨Arr.lit n rows t, by simp, by simpa [Arr.lit] using hc⟩
     · cases h
   · cases h
 
@@ -382,18 +482,20 @@ theorem inv_setDataAttr {s : State} (hI : Inv s) (vid : Nat) (lens : List Nat) (
         · exact hI
         · split
           · exact hI
-          · rename_i h1 h2 h3 h4
-            split
+          · split
             · exact hI
-            · rename_i heap' cs hst
-              obtain ⟨hwf, hext, hlen, hcs⟩ := storeItems_spec _ _ _ _ _ hI.wf hst
-              refine hI.putVec vid hwf hext ⟨hvok.nodup, hvok.units, ?_, hcs, hvok.mref, hvok.pos⟩
-              have e1 : lens.length = v.shape.length := by omega
-              have e2 : lens = v.shape := by
-                have := Classical.not_not.mp h2
-                rw [this, e1]; simp
-              simp only [hlen]
-              rw [← e2]; exact Classical.not_not.mp h4
+            · rename_i h0 h1 h2 h3 h4
+              split
+              · exact hI
+              · rename_i heap' cs hst
+                obtain ⟨hwf, hext, hlen, hcs⟩ := storeItems_spec _ _ _ _ _ hI.wf hst
+                refine hI.putVec vid hwf hext ⟨hvok.nodup, hvok.units, ?_, hcs, hvok.mref, hvok.pos⟩
+                have e1 : lens.length = v.shape.length := by omega
+                have e2 : lens = v.shape := by
+                  have := Classical.not_not.mp h2
+                  rw [this, e1]; simp
+                simp only [hlen]
+                rw [← e2]; exact Classical.not_not.mp h4
 
 /-! ### index resolution and addressed positions -/
 
@@ -487,6 +589,59 @@ theorem getData_state (s : State) (vid : Nat) (idx : List Ix) : (opGetData s vid
   repeat' split
   all_goals rfl
 
+theorem inv_getItemCore {s : State} (hI : Inv s) {v : Vec} (hvok : VecOK s.heap s.metas.length v)
+    (idx : List Ix) (hle : idx.length ≤ v.shape.length) : Inv (getItemCore s v idx).1 := by
+  unfold getItemCore
+  simp only
+  split
+  · split
+    · exact hI
+    · split
+      · exact hI
+      · exact hI
+  · split
+    · exact hI
+    · rename_i ls hls
+      split
+      · exact hI
+      · rename_i ps hps
+        split
+        · exact hI
+        · rename_i hany
+          split
+          · exact hI
+          · rename_i fs hfs
+            split
+            · exact hI
+            · rename_i us hus
+              obtain ⟨e, _⟩ := validateFields_ok hfs
+              subst e
+              have hlen : ls.length = v.shape.length := by
+                have := resolveAll_length _ _ _ _ hls
+                rw [padIdx_length _ _ hle] at this
+                simpa using this
+              refine hI.mkVec hI.wf (HeapExt.refl _) _ _ _ us hvok.nodup (validateUnits_ok hus) ?_ ?_ ?_
+              rotate_left 2
+              · intro d hd
+                rcases Nat.eq_zero_or_pos d with h0 | h0
+                · subst h0
+                  exact absurd (List.any_eq_true.mpr ⟨0, hd, by simp⟩) hany
+                · exact h0
+              · simp [positions_length _ _ _ hlen hps]
+              · intro c hc
+                simp only [List.mem_map] at hc
+                obtain ⟨p, _, rfl⟩ := hc
+                rcases join_getElem?_cases (l := v.cells) (p := p) with h | h
+                · rw [h]; exact CellOK.none _ _
+                · exact hvok.cells _ h
+
+/-- indexing INTO a cell array only reads -/
+theorem getItemLong_state (s : State) (v : Vec) (idx : List Ix) : (getItemLong s v idx).1 = s := by
+  unfold getItemLong
+  simp only
+  repeat' split
+  all_goals rfl
+
 theorem inv_getItem {s : State} (hI : Inv s) (vid : Nat) (idx : List Ix) : Inv (opGetItem s vid idx).1 := by
   unfold opGetItem
   split
@@ -495,49 +650,10 @@ theorem inv_getItem {s : State} (hI : Inv s) (vid : Nat) (idx : List Ix) : Inv (
     have hvok := hI.vecs v (getVec_mem hv)
     simp only
     split
-    · exact hI
-    · rename_i hle
-      split
-      · split
-        · exact hI
-        · split
-          · exact hI
-          · exact hI
-      · split
-        · exact hI
-        · rename_i ls hls
-          split
-          · exact hI
-          · rename_i ps hps
-            split
-            · exact hI
-            · rename_i hany
-              split
-              · exact hI
-              · rename_i fs hfs
-                split
-                · exact hI
-                · rename_i us hus
-                  obtain ⟨e, _⟩ := validateFields_ok hfs
-                  subst e
-                  have hlen : ls.length = v.shape.length := by
-                    have := resolveAll_length _ _ _ _ hls
-                    rw [padIdx_length _ _ (by omega)] at this
-                    simpa using this
-                  refine hI.mkVec hI.wf (HeapExt.refl _) _ _ _ us hvok.nodup (validateUnits_ok hus) ?_ ?_ ?_
-                  rotate_left 2
-                  · intro d hd
-                    rcases Nat.eq_zero_or_pos d with h0 | h0
-                    · subst h0
-                      exact absurd (List.any_eq_true.mpr ⟨0, hd, by simp⟩) hany
-                    · exact h0
-                  · simp [positions_length _ _ _ hlen hps]
-                  · intro c hc
-                    simp only [List.mem_map] at hc
-                    obtain ⟨p, _, rfl⟩ := hc
-                    rcases join_getElem?_cases (l := v.cells) (p := p) with h | h
-                    · rw [h]; exact CellOK.none _ _
-                    · exact hvok.cells _ h
+    · split
+      · rw [getItemLong_state]; exact hI
+      · exact inv_getItemCore hI hvok _ (by simp [List.length_take]; omega)
+    · exact inv_getItemCore hI hvok _ (by omega)
 
 /-! ### assignment -/
 
@@ -603,8 +719,12 @@ theorem inv_setData {s : State} (hI : Inv s) (vid : Nat) (idx : List Ix) (val : 
           split
           · split
             · rename_i x
-              have := setCells_spec s.heap v.fields.length ps [x] v.cells hvok.cells
-              exact inv_finish hI vid hvok _ this.1 this.2
+              split
+              · split
+                · exact hI
+                · exact hI
+              · have := setCells_spec s.heap v.fields.length ps [x] v.cells hvok.cells
+                exact inv_finish hI vid hvok _ this.1 this.2
             · exact hI
           · split
             · rename_i xs
@@ -613,6 +733,84 @@ theorem inv_setData {s : State} (hI : Inv s) (vid : Nat) (idx : List Ix) (val : 
               · have := setCells_spec s.heap v.fields.length ps xs v.cells hvok.cells
                 exact inv_finish hI vid hvok _ this.1 this.2
             · exact hI
+
+theorem inv_setItemCore {s : State} (hI : Inv s) (vid : Nat) {v : Vec} (hvok : VecOK s.heap s.metas.length v)
+    (idx : List Ix) (val : SetVal) : Inv (setItemCore s vid v idx val).1 := by
+  unfold setItemCore
+  simp only
+  split
+  · split
+    · exact hI
+    · rename_i xs _
+      split
+      · exact hI
+      · split
+        · exact hI
+        · rename_i ps hps
+          split
+          · exact hI
+          · have := setCells_spec s.heap v.fields.length ps xs v.cells hvok.cells
+            exact inv_finish hI vid hvok _ this.1 this.2
+  · split
+    · rename_i x
+      split
+      · exact hI
+      · rename_i r hr
+        split
+        · exact hI
+        · split
+          · exact hI
+          · rename_i p hp
+            refine hI.putVec (heap' := s.heap) vid hI.wf (HeapExt.refl _)
+              ⟨hvok.nodup, hvok.units, by simp [hvok.ncells], ?_, hvok.mref, hvok.pos⟩
+            intro c hc
+            rcases mem_set_cases hc with hc | hc
+            · exact hvok.cells c hc
+            · subst hc; exact checkVal_ok hr
+    · exact hI
+
+theorem Inv.withHeap {s : State} (hI : Inv s) {heap' : List Arr} (hwf : ∀ a ∈ heap', a.WF)
+    (hext : HeapExt s.heap heap') : Inv { s with heap := heap' } :=
+  hI.update hwf hext (Nat.le_refl _) (fun _ h => Or.inl h)
+
+/-- `v[i…, k] = row` overwrites one row of a live array in place: same shape, same dtype -/
+theorem inv_setItemLong {s : State} (hI : Inv s) (v : Vec) (idx : List Ix) (val : SetVal) :
+    Inv (setItemLong s v idx val).1 := by
+  unfold setItemLong
+  simp only
+  split
+  · split
+    · exact hI
+    · split
+      · exact hI
+      · split
+        · exact hI
+        · rename_i r hr
+          split
+          · rename_i a b ha hb
+            split
+            · exact hI
+            · exact hI
+            · split
+              · exact hI
+              · split
+                · exact hI
+                · exact hI.withHeap (wf_set hI.wf (Arr.setRow_wf (hI.wf a (List.mem_of_getElem? ha)) _ _) r)
+                    (HeapExt.set ha (by simp [Arr.setRow]))
+            · split
+              · exact hI
+              · split
+                · exact hI
+                · exact hI
+            · split
+              · exact hI
+              · split
+                · exact hI
+                · split
+                  · exact hI
+                  · exact hI
+          · exact hI
+  · exact hI
 
 theorem inv_setItem {s : State} (hI : Inv s) (vid : Nat) (idx : List Ix) (val : SetVal) :
     Inv (opSetItem s vid idx val).1 := by
@@ -623,35 +821,10 @@ theorem inv_setItem {s : State} (hI : Inv s) (vid : Nat) (idx : List Ix) (val : 
     have hvok := hI.vecs v (getVec_mem hv)
     simp only
     split
-    · exact hI
     · split
-      · split
-        · exact hI
-        · rename_i xs _
-          split
-          · exact hI
-          · split
-            · exact hI
-            · rename_i ps hps
-              split
-              · exact hI
-              · have := setCells_spec s.heap v.fields.length ps xs v.cells hvok.cells
-                exact inv_finish hI vid hvok _ this.1 this.2
-      · split
-        · rename_i x
-          split
-          · exact hI
-          · rename_i r hr
-            split
-            · exact hI
-            · rename_i p hp
-              refine hI.putVec (heap' := s.heap) vid hI.wf (HeapExt.refl _)
-                ⟨hvok.nodup, hvok.units, by simp [hvok.ncells], ?_, hvok.mref, hvok.pos⟩
-              intro c hc
-              rcases mem_set_cases hc with hc | hc
-              · exact hvok.cells c hc
-              · subst hc; exact checkVal_ok hr
-        · exact hI
+      · exact inv_setItemCore hI vid hvok _ val
+      · exact inv_setItemLong hI v idx val
+    · exact inv_setItemCore hI vid hvok _ val
 
 /-! ### field views: in-place writes keep every array's shape -/
 
@@ -693,10 +866,6 @@ theorem fill_spec (j : Nat) : ∀ (cells : List (Option Ref)) (heap : List Arr) 
         exact ⟨this.1, (HeapExt.set ha (by simp [Arr.setCol])).trans this.2⟩
       · exact ih heap xs h
 
-theorem Inv.withHeap {s : State} (hI : Inv s) {heap' : List Arr} (hwf : ∀ a ∈ heap', a.WF)
-    (hext : HeapExt s.heap heap') : Inv { s with heap := heap' } :=
-  hI.update hwf hext (Nat.le_refl _) (fun _ h => Or.inl h)
-
 theorem inv_setFlat {s : State} (hI : Inv s) (v : Vec) (j : Nat) (vals : FlatVal) : Inv (setFlat s v j vals).1 := by
   unfold setFlat
   split
@@ -734,6 +903,63 @@ theorem inv_fieldOp {s : State} (hI : Inv s) (vid : Nat) (name : String) (f : Ra
     · rename_i v _ _ j _
       have := applyOp_spec j f v.cells s.heap hI.wf
       exact inv_setFlat (hI.withHeap this.1 this.2) _ _ _
+
+/-- general field arithmetic: every write is an in-place column assignment -/
+theorem applyGen_spec (j : Nat) (g : Rat → Rat → Rat) (neg : Bool) (rhs : RhsR) :
+    ∀ (cells : List (Option Ref)) (heap : List Arr), (∀ a ∈ heap, a.WF) →
+      (∀ a ∈ (applyGen j g neg rhs heap cells).1, a.WF) ∧ HeapExt heap (applyGen j g neg rhs heap cells).1 := by
+  intro cells
+  induction cells with
+  | nil => intro heap h; exact ⟨h, HeapExt.refl _⟩
+  | cons c cs ih =>
+    intro heap h
+    cases c with
+    | none => simpa [applyGen] using ih heap h
+    | some r =>
+      simp only [applyGen]
+      split
+      · exact ih heap h
+      · rename_i a ha
+        split
+        · exact ⟨h, HeapExt.refl _⟩
+        · split
+          · exact ⟨h, HeapExt.refl _⟩
+          · rename_i ys _
+            have hwf : ∀ x ∈ heap.set r (a.setCol j (List.zipWith g (a.col j) ys)), x.WF :=
+              wf_set h (Arr.setCol_wf (h a (List.mem_of_getElem? ha)) j _) r
+            have := ih _ hwf
+            exact ⟨this.1, (HeapExt.set ha (by simp [Arr.setCol])).trans this.2⟩
+
+theorem inv_fieldOpGen {s : State} (hI : Inv s) (vid : Nat) (name : String) (g : Rat → Rat → Rat) (neg : Bool)
+    (rhs : Rhs) : Inv (opFieldOpGen s vid name g neg rhs).1 := by
+  unfold opFieldOpGen
+  split
+  · exact hI
+  · split
+    · exact hI
+    · rename_i v _ _ j _
+      simp only
+      split
+      · exact hI
+      · rename_i r _
+        have := applyGen_spec j g neg r v.cells s.heap hI.wf
+        split
+        · rename_i heap' e he
+          rw [he] at this
+          exact hI.withHeap this.1 this.2
+        · rename_i heap' he
+          rw [he] at this
+          exact inv_setFlat (hI.withHeap this.1 this.2) _ _ _
+
+theorem inv_fieldGet {s : State} (hI : Inv s) (vid : Nat) (name : String) (idx : List Ix) :
+    Inv (opFieldGet s vid name idx).1 := by
+  have h := inv_getItem hI vid idx
+  unfold opFieldGet
+  split
+  · exact hI
+  · split
+    · exact hI
+    · split <;> (try split) <;> simp_all
 
 /-! ### adding / removing fields: every populated cell gets a NEW array of the new width -/
 
@@ -875,7 +1101,7 @@ theorem inv_removeFields {s : State} (hI : Inv s) (vid : Nat) (names : List Stri
       rw [hr]
       obtain ⟨heap', cs⟩ := r
       obtain ⟨a1, a2, a3, a4⟩ := rebuildCells_spec _ _ keep.length
-        (by intro a _ _; exact ⟨Arr.keepCols_wf a keep, by simp [Arr.keepCols]⟩) v.cells s.heap heap' cs hI.wf hr
+        (by intro a hwf _; exact ⟨Arr.keepCols_wf hwf keep, by simp [Arr.keepCols]⟩) v.cells s.heap heap' cs hI.wf hr
       exact hI.putVec vid a1 a2 ⟨hnd, by simp, by simp [a3, hvok.ncells], by simpa using a4, hvok.mref, hvok.pos⟩
 
 /-! ### deep copy -/
@@ -1078,7 +1304,7 @@ theorem inv_metaSet {s : State} (hI : Inv s) (vid : Nat) (k : String) (x : Int) 
 
 theorem inv_step {s : State} (hI : Inv s) (op : Op) : Inv (step s op).1 := by
   cases op with
-  | alloc n rows => exact inv_alloc hI n rows
+  | alloc n rows t => exact inv_alloc hI n rows t
   | fromShape sh nf fs us => exact inv_fromShape hI sh nf fs us
   | fromData items nf fs us => exact inv_fromData hI items nf fs us
   | getData v idx => simp only [step]; rw [getData_state]; exact hI
@@ -1086,6 +1312,8 @@ theorem inv_step {s : State} (hI : Inv s) (op : Op) : Inv (step s op).1 := by
   | getItem v idx => exact inv_getItem hI v idx
   | setItem v idx val => exact inv_setItem hI v idx val
   | fieldOp v name f => exact inv_fieldOp hI v name f
+  | fieldOpGen v name g neg rhs => exact inv_fieldOpGen hI v name g neg rhs
+  | fieldGet v name idx => exact inv_fieldGet hI v name idx
   | setFlattened v name vals => exact inv_setFlattened hI v name vals
   | writeBack v name => exact inv_writeBack hI v name
   | addFields v names => exact inv_addFields hI v names
